@@ -2,6 +2,7 @@ package encryption
 
 import (
 	"encoding/hex"
+	"strings"
 
 	"0chain.net/core/common"
 	"golang.org/x/crypto/sha3"
@@ -21,7 +22,9 @@ func Hash(data interface{}) string {
 
 func IsHash(str string) bool {
 	bytes, err := hex.DecodeString(str)
-	return err == nil && len(bytes) == HASH_LENGTH
+	// only the lower-case spelling Hash produces: an id spelled with upper-case hex
+	// digits is a different key of the state trie than the account it names
+	return err == nil && len(bytes) == HASH_LENGTH && str == strings.ToLower(str)
 }
 
 //EmptyHash - hash of an empty string
